@@ -543,7 +543,7 @@ func (s *sys) Fingerprint() string {
 		}
 	}
 	sort.Strings(ds)
-	fmt.Fprintf(&sb, " dials%v", ds)
+	fmt.Fprintf(&sb, " dials%v live[%s]", ds, s.w.LivenessSig())
 	return sb.String()
 }
 
